@@ -473,3 +473,10 @@ func (m *Monitors) prevBlockOf(n *Node, h uint64) interfaces.Block {
 	}
 	return nil
 }
+
+func pviewOf(proof []byte) uint64 {
+	if len(proof) == 0 {
+		return 0
+	}
+	return uint64(protocol.BlockProofReader(proof).BlockRef().View())
+}
